@@ -30,7 +30,6 @@ import (
 	"github.com/spf13/pflag"
 	"github.com/vimeo/dials"
 	djson "github.com/vimeo/dials/decoders/json"
-	"github.com/vimeo/dials/parse"
 	"github.com/vimeo/dials/ptrify"
 	dflag "github.com/vimeo/dials/sources/flag"
 	"github.com/vimeo/dials/sources/flag/flaghelper"
@@ -659,7 +658,7 @@ func c12GenOcc(r *RNG, l *c12Leaf, pk string) c12Occ {
 		}
 		o.text = strconv.FormatFloat(x, 'g', -1, bits)
 		if r.Chance(10) {
-			o.text = []string{"1e39", "-1e39", "1e400", "0x1p-2", "1_0.5", "+3.5", "Inf"}[r.Intn(7)]
+			o.text = []string{"1e39", "-1e39", "1e400", "0x1p-2", "1_0.5", "+3.5", "Inf", "3.4028235e+38", "-3.4028235e+38", "3.4028236e+38", "1e-45"}[r.Intn(11)]
 		}
 		if bad {
 			o.text = []string{"1.2.3", "", "abc"}[r.Intn(3)]
@@ -685,18 +684,20 @@ func c12GenOcc(r *RNG, l *c12Leaf, pk string) c12Occ {
 		if r.Chance(20) {
 			o.text = strings.Trim(o.text, "()")
 		}
+		if r.Chance(12) {
+			// a part outside the float32 range but inside the float64 range (an error for complex64, a value for
+			// complex128), and the largest finite float32 (a value for both)
+			o.text = []string{"1e39", "(1-3.5e38i)", "4e38+1i", "-1e39i", "3.4028236e+38", "(3.4028235e+38-3.4028235e+38i)", "1e300+2i"}[r.Intn(7)]
+		}
 		if bad {
 			o.text = []string{"i+", "", "1+2", "(1e39+1i)x"}[r.Intn(4)]
 		}
-		var c complex128
-		var err error
+		// (expected value from strconv itself, not from the library's parse package)
+		bits := 128
 		if k.cls == "c64" {
-			var c6 complex64
-			c6, err = parse.Complex64(o.text)
-			c = complex128(c6)
-		} else {
-			c, err = parse.Complex128(o.text)
+			bits = 64
 		}
+		c, err := strconv.ParseComplex(o.text, bits)
 		if err != nil {
 			o.reject, o.ext = true, "r"
 		} else {
